@@ -105,6 +105,11 @@ pub fn intersect_cc<'a>(mut a: &'a Circle, mut b: &'a Circle) -> CircleIntersect
     if d < a.r - b.r - EPS {
         CircleIntersection::None
     } else if d < a.r - b.r + EPS {
+        if d == 0.0 {
+            // concentric circles whose radii agree within EPS: there is no direction to the touch
+            // point (the formula below divided 0 by 0 and returned a NaN point)
+            return CircleIntersection::Same;
+        }
         CircleIntersection::TouchInside(a.c + (b.c - a.c) / d * a.r)
     } else if d < a.r + b.r - EPS {
         // the circles are known to cross properly here: build both points directly (going through
